@@ -106,7 +106,8 @@ def wakeWith (fixedDeadline : Bool) (s : St) (w : Waiter) (elapsed : Int) : St :
 /-- one atomic region.  `fixedDeadline` selects the code after (true) / before (false) the C26 fix. -/
 def stepG (fixedDeadline : Bool) (s : St) : Act → St
   | .feed d =>
-    let s1 := setEventFlag s
+    -- `if self._event is not None and len(data) > 0: self._event.set()`
+    let s1 := if d.isEmpty then s else setEventFlag s
     { s1 with buf := s1.buf ++ d, log := s1.log ++ [.fed d] }
   | .read tid n timeout =>
     if isWaiting s tid then s            -- that thread is parked in cv.wait: it cannot start another call
